@@ -582,6 +582,16 @@ func c16FileLine(tag, k string, kind int, ref string) []c16Line {
 	return nil
 }
 
+var c16SiteN int
+
+// c16SiteLayout: a case with the Sites legs runs the second call site and one of the three layouts, in rotation
+func c16SiteLayout(ctx *core.Ctx, o *c16OracleArgs) {
+	c16SiteN++
+	o.SiteLayout = []string{"include", "extends", "extends-split"}[c16SiteN%3]
+	ctx.Count("oracle-sites-legs")
+	ctx.Count("oracle-sites-layout-" + o.SiteLayout)
+}
+
 func c16OracleExhaustive(ctx *core.Ctx) {
 	n := 0
 	add := func(kind string, o c16OracleArgs) {
@@ -591,7 +601,7 @@ func c16OracleExhaustive(ctx *core.Ctx) {
 		o.Sites = n%4 == 1 && !o.NoLoad
 		ctx.Count(kind)
 		if o.Sites {
-			ctx.Count("oracle-sites-legs")
+			c16SiteLayout(ctx, &o)
 		}
 		ctx.Add("c16.oracle", o)
 	}
@@ -709,7 +719,7 @@ func c16OracleUnderFile(ctx *core.Ctx) {
 				}
 				ctx.Count("oracle-env-file-under-regular-file")
 				if o.Sites = !o.NoLoad; o.Sites {
-					ctx.Count("oracle-sites-legs")
+					c16SiteLayout(ctx, &o)
 				}
 				ctx.Add("c16.oracle", o)
 			}
@@ -746,7 +756,7 @@ func c16OracleOperators(ctx *core.Ctx) {
 				o.LabelLayers = []c16Layer{{Path: "LF1.lbl", Present: true, Required: true, Lines: f1}, {Path: "LF2.lbl", Present: true, Required: true, Lines: f2}}
 				ctx.Count("oracle-operators")
 				if o.Sites = !o.NoLoad; o.Sites {
-					ctx.Count("oracle-sites-legs")
+					c16SiteLayout(ctx, &o)
 				}
 				ctx.Add("c16.oracle", o)
 			}
@@ -803,7 +813,7 @@ func c16OracleRandom(ctx *core.Ctx) {
 		}
 		o.NoLoad = i%ctx.Pick(3, 2) != 0
 		if o.Sites = !o.NoLoad && i%2 == 0; o.Sites {
-			ctx.Count("oracle-sites-legs")
+			c16SiteLayout(ctx, &o)
 		}
 		ctx.Count(fmt.Sprintf("oracle-random-%dkeys", nk))
 		ctx.Add("c16.oracle", o)
